@@ -5,7 +5,9 @@ import FluteModel.Lemmas.ObjRecvTotal
   The decompressor contract `DzContract` (Lemmas/DrainObj.lean) is SATISFIABLE by decompressors that do hand out data
   (review batch 3: the earlier `DzOK` with one fuel constant was not):
     * `idContract`     - the one-byte-at-a-time identity transducer (what any inflater does at least, on stored blocks);
-    * `idealContract`  - the table decompressor the `orecv` driver runs (`Drv.Orecv.idealDz ztab`, any table).
+    * `idealContract`  - the always-draining table decompressor `Drv.Orecv.idealDz ztab` (any table), an earlier variant of the
+                         one the `orecv` driver executes now (`tableDz`, contract `Drv.Orecv.tableContract` in
+                         Lemmas/DrvOrecvDzOK.lean).
   Neither mentions the inner fuel of the model; with the state-dependent fuel `dzFuel c hist avail := mu c hist avail + 1`
   they give `DzOK` (see `DzOK.ofContract` once `Params.dzFuel` is a function).
 -/
